@@ -126,21 +126,32 @@ pub fn assign_vs_op_cell(op: u8, dw: bool, d: i32, kx: i32, ky: i32) {
 /// 0: a+b == b+a   1: x+f == f+x   2: x*f == f*x   3: a-b == a+(-b)   4: a-b == -(b-a)
 /// 5: (-a)*b == -(a*b)   6: x-f == x+(-f)   7: f-x == -(x-f)   8: a*b == b*a
 pub fn identity_cell(which: u8, d: i32, kx: i32, ky: i32, m: u32) {
+    identity_cell_impl(which, d, kx, ky, m, crate::gen_cells::known("c10_zero_sign"))
+}
+
+fn identity_cell_impl(which: u8, d: i32, kx: i32, ky: i32, m: u32, zero_sign_known: bool) {
     let a = dw_cell_m(1023, kx, m);
     let b = dw_cell_m(1023 - d, ky, m);
     let f = any_in_binade_m(1023 - d, m);
+    let eq = |x: TwoFloat, y: TwoFloat| if zero_sign_known { same_z(x, y) } else { same(x, y) };
     match which {
-        0 => assert!(same(a + b, b + a)),
-        1 => assert!(same(a + f, f + a)),
-        2 => assert!(same(a * f, f * a)),
-        3 => assert!(same(a - b, a + (-b))),
-        4 => assert!(same(a - b, -(b - a))),
-        5 => assert!(same((-a) * b, -(a * b))),
-        6 => assert!(same(a - f, a + (-f))),
-        7 => assert!(same(f - a, -(a - f))),
-        _ => assert!(same(a * b, b * a)),
+        0 => assert!(eq(a + b, b + a)),
+        1 => assert!(eq(a + f, f + a)),
+        2 => assert!(eq(a * f, f * a)),
+        3 => assert!(eq(a - b, a + (-b))),
+        4 => assert!(eq(a - b, -(b - a))),
+        5 => assert!(eq((-a) * b, -(a * b))),
+        6 => assert!(eq(a - f, a + (-f))),
+        7 => assert!(eq(f - a, -(a - f))),
+        _ => assert!(eq(a * b, b * a)),
     }
     reached();
+}
+
+//@ id=C10 tier=quick to=900 cfg=std kind=known desc="witness of the recorded finding c10_zero_sign: strict bit-for-bit comparison of (-a)*b with -(a*b) on a small cell (expected to fail: sign of an exactly-zero low word)"
+#[cfg_attr(kani, kani::proof)]
+pub fn c10_kf_zero_sign_neg_mul() {
+    identity_cell_impl(5, 0, 0, 0, 8, false)
 }
 
 //@ id=C10 tier=quick to=600 cfg=std exh=1 desc="-x and -&x are bit-identical and -(-x) is x bit-for-bit, every bit pattern"
